@@ -273,6 +273,11 @@ class TemplateManipulator:
 				if len(found_path) == 0:
 					continue
 
+				# `T | None`にNoneを渡した場合、Noneはテンプレートの実体型ではない(Union側のNoneに一致している)ため、他の引数から解決する
+				schema_parent = DSN.left(schema_path, DSN.elem_counts(schema_path) - 1)
+				if schema_parent in schema_props and schema_props[schema_parent].impl(refs.Object).type_is(Union) and actual_props[found_path].impl(refs.Object).type_is(None):
+					continue
+
 				updates[target_path] = found_path
 
 				# 実体型を解決した時点でtarget_pathに対する解析は成功
@@ -308,15 +313,13 @@ class TemplateManipulator:
 		elem_indexs: dict[str, list[int]] = {key: [] for key in unique_keys}
 		for key in unique_keys:
 			count = DSN.elem_counts(key)
-			for i in range(2, count):
-				begin = DSN.left(key, i)
-				# Unionは条件を並列に並べることが目的。seq.expandによって既に展開されており、階層としては不要なので除外
-				if begin in props and not (skip_union and props[begin].impl(refs.Object).type_is(Union)):
-					begin_index = int(DSN.right(begin, 1))
-					elem_indexs[key].append(begin_index)
+			for i in range(2, count + 1):
+				parent = DSN.left(key, i - 1)
+				# Unionは条件を並列に並べることが目的。Union内の位置(=Unionの直下のインデックス)は階層として不要なので除外
+				if skip_union and parent in props and props[parent].impl(refs.Object).type_is(Union):
+					continue
 
-			index = int(DSN.right(key, 1))
-			elem_indexs[key].append(index)
+				elem_indexs[key].append(int(DSN.right(DSN.left(key, i), 1)))
 
 		return {key: DSN.join(*map(str, indexs)) for key, indexs in elem_indexs.items()}
 
@@ -345,6 +348,10 @@ class TemplateManipulator:
 				continue
 
 			diff = DSN.elem_counts(actual_elems) - DSN.elem_counts(schema_elems)
+			# 階層の深さだけでなく、型引数の位置も一致していること
+			if diff >= 0 and DSN.left(actual_elems, DSN.elem_counts(schema_elems)) != schema_elems:
+				continue
+
 			if diff == 0:
 				return actual_path
 			elif diff > 0:
